@@ -24,7 +24,9 @@ ConvClasses == <<[N |-> 16,  logpack |-> 1, stride |-> 5,  bits |-> 150],
                  [N |-> 128, logpack |-> 2, stride |-> 17, bits |-> 500],
                  [N |-> 256, logpack |-> 3, stride |-> 17, bits |-> 500]>>
 
-Coefs   == <<"zero", "one", "nm1", "rand", "mixed">>
+\* "mont1": the residue 1/R whose internal (Montgomery) representative is 1, so that the integers handed to the
+\* CRT reconstruction are tiny (lower boundary of its quotient estimate); "nm1"/"rand" are the large ones
+Coefs   == <<"zero", "one", "nm1", "rand", "mixed", "mont1">>
 Offsets == <<"0", "1", "half", "last">>
 \* operand lengths relative to the transform size
 LenPats == <<"full", "one", "two", "halfm", "halfp", "fullm1", "nowrap">>
@@ -46,22 +48,28 @@ FInt == {x \in [op : {"fint"}, N : {16, 32, 64, 128, 256}, fop : 1..8, pa : 1..7
            /\ (x.fop >= 5 => x.pb = 1)                              \* unary operations
            /\ (x.N >= 64 => Keep(x.fop + x.pa + 2 * x.pb + x.N \div 64, ThinF))}
 
-ConvSS == {x \in [op : {"conv_ss"}, cls : 1..8, sz : 1..3, off : 1..4, lens : 1..7, coef : 1..5, small : BOOLEAN] :
+ConvSS == {x \in [op : {"conv_ss"}, cls : 1..8, sz : 1..3, off : 1..4, lens : 1..7, coef : 1..6, small : BOOLEAN] :
              /\ Keep(31 * x.cls + 37 * x.sz + 41 * x.off + 43 * x.lens + 47 * x.coef + (IF x.small THEN 53 ELSE 0), ThinSS)
              /\ x.sz <= 1 + SizeCap}
 
 \* w = number of NTT primes (CRT width): every value reachable with moduli of 2..500 bits
-ConvNTT == {x \in [op : {"conv_ntt"}, w : 1..18, logsize : 1..6, kextra : {0, 3, 10}, off : 1..4, lens : 1..7, coef : 1..5] :
+ConvNTT == {x \in [op : {"conv_ntt"}, w : 1..18, logsize : 1..6, kextra : {0, 3, 10}, off : 1..4, lens : 1..7, coef : 1..6] :
               /\ Keep(31 * x.w + 37 * x.logsize + 41 * x.off + 43 * x.lens + 47 * x.coef + 53 * x.kextra, ThinNTT)
               /\ (x.w > 9 => x.logsize <= 4 + SizeCap)}
 
-Poly == {x \in [op : {"poly"}, pop : 1..9, bits : 1..16, len : 1..22, lenpat : {"eq", "m1", "big"}, coef : 1..5, ntt : BOOLEAN] :
+Poly == {x \in [op : {"poly"}, pop : 1..9, bits : 1..16, len : 1..22, lenpat : {"eq", "m1", "big"}, coef : 1..6, ntt : BOOLEAN] :
            /\ PolyLens[x.len] <= Cap(BitsSet[x.bits])
            /\ (PolyOps[x.pop] = "mul_fft" => x.ntt)
            /\ (PolyOps[x.pop] = "mul_basic" => ~x.ntt /\ x.lenpat = "eq" /\ PolyLens[x.len] <= 33)
            /\ (PolyOps[x.pop] \in {"middle", "inv", "from_roots"} => x.lenpat = "eq")
            /\ (PolyOps[x.pop] \in {"mul_karatsuba", "quot"} => x.lenpat # "big")
            /\ Keep(31 * x.pop + 37 * x.bits + 41 * x.len + 47 * x.coef + (IF x.ntt THEN 53 ELSE 0) + (IF x.lenpat = "eq" THEN 0 ELSE 59), ThinPoly)}
+
+\* every operation on the tiniest lengths (recursion base cases and their scratch-space bounds), not thinned
+PolyTiny == {x \in [op : {"poly"}, pop : 1..9, bits : {8}, len : 1..5, lenpat : {"eq", "m1"}, coef : {2, 4}, ntt : {FALSE}] :
+               /\ PolyOps[x.pop] # "mul_fft"
+               /\ (PolyOps[x.pop] = "mul_basic" => x.lenpat = "eq")
+               /\ (PolyOps[x.pop] \in {"middle", "inv", "from_roots"} => x.lenpat = "eq")}
 
 Name(x) ==
   CASE x.op = "fint" -> [op |-> "fint", N |-> x.N, fop |-> FIntOps[x.fop], pa |-> FPats[x.pa], pb |-> FPats[x.pb]]
@@ -73,7 +81,7 @@ Name(x) ==
     [] x.op = "poly" -> [op |-> "poly", pop |-> PolyOps[x.pop], bits |-> BitsSet[x.bits], len |-> PolyLens[x.len],
                          lenpat |-> x.lenpat, coef |-> Coefs[x.coef], ntt |-> x.ntt]
 
-Init == s \in FInt \cup ConvSS \cup ConvNTT \cup Poly
+Init == s \in FInt \cup ConvSS \cup ConvNTT \cup Poly \cup PolyTiny
 Next == UNCHANGED s
 Emit == PrintT(<<"SHAPE", ToJson(Name(s))>>)
 =============================================================================
